@@ -142,6 +142,11 @@ func c11key(id, a, b string) string {
 	}
 	var doc []byte
 	fmt.Sscanf(p[2], "%x", &doc)
+	if f, ks := c11feature(doc), xkeyShape(id, a, b); f == "number-beyond-float64-range" && ks == "value-vs-ERR" {
+		// one root cause whatever the destination: the alternative decoder converts every
+		// number while it builds its node tree, also where the destination never would
+		return ks + ":" + f + ":any-destination-that-does-not-convert-the-literal"
+	}
 	return xkeyShape(id, a, b) + ":" + c11feature(doc) + ":" + p[1]
 }
 
